@@ -17,6 +17,11 @@ impl<'a> StateMachine<'a> {
     //@ stub src/handlers/diff_header.rs StateMachine::handle_pending_line_with_diff_name spec=diff_header.handle_pending
     // verified against (a stronger form of) this contract in U21
     //@ stub src/handlers/merge_conflict.rs StateMachine::paint_buffered_merge_conflict_lines spec=merge.paint_buffered_merge_conflict_lines
+    // verified against this contract in U06
+    //@ stub src/handlers/submodule.rs StateMachine::handle_pending_submodule_short_commit spec=misc.pending_submodule optional=1
+    // verified against a stronger contract in U14
+    //@ stub src/delta.rs StateMachine::ingest_line
+    //@| ensures final(self).state == old(self).state && final(self).painter == old(self).painter && final(self).config == old(self).config,
     //@ fn src/handlers/merge_conflict.rs StateMachine::handle_unterminated_merge_conflict optional=1
     //@| requires old(self).state matches State::MergeConflict(mp, _) ==> mp_known(mp),
     //@| ensures sm_frame(final(self), old(self)),
@@ -32,6 +37,19 @@ impl<'a> StateMachine<'a> {
     //@| requires mc_state_parents_known(old(self).state), srcinv(old(self)),
     //@| ensures r.is_ok() ==> final(self).painter.minus_lines@.len() == 0 && final(self).painter.plus_lines@.len() == 0 && final(self).painter.output_buffer@.len() == 0,  // @C01,C11:at.the.end.of.the.input.nothing.is.left.in.the.buffers
     //@|         r.is_ok() && old(self).state is MergeConflict ==> mc_empty(&final(self).painter.merge_conflict_lines),  // @C01:at.the.end.of.the.input.an.open.conflict.region.has.been.painted
+    //@|         r.is_ok() ==> !(final(self).state is SubmoduleShort),  // @C01:at.the.end.of.the.input.no.submodule.commit.is.held.back
+
+    // the statements of the loop body of `consume` before the handler chain: what happens before a line is offered to the handlers
+    //@ region src/delta.rs StateMachine::consume
+    //@sig pub fn consume_line_prologue(&mut self, raw_line_bytes: &[u8]) -> (r: std::io::Result<()>)
+    //@from <<<self.ingest_line(raw_line_bytes);>>>
+    //@until <<<// Every method named handle_* must return std::io::Result<bool>.>>>
+    //@tail Ok(())
+    //@| ensures r.is_ok() ==> (final(self).state is SubmoduleShort ==> is_prefix("+Subproject commit "@, final(self).line@)),  // @C01:a.submodule.commit.is.held.back.only.while.the.next.line.is.its.partner
+}
+//@ stub src/delta.rs detect_source spec=delta.detect_source
+impl AmbiguousDiffMinusCounter {
+    //@ stub src/handlers/hunk_header.rs AmbiguousDiffMinusCounter::prepare_to_count
 }
 
 // ---------------------------------------------------------------- config.rs: the buffer limit is the number the user gave
